@@ -101,6 +101,47 @@ impl RunOutcome {
         }
         out
     }
+    /// opreturn records: one per println of the callback (a payload may contain newlines)
+    pub fn opreturn_records(&self) -> Vec<String> {
+        let s = self.stdout_str();
+        let mut kept: Vec<&str> = Vec::new();
+        let mut in_log_block = false;
+        for l in s.split('\n') {
+            if is_log_line(l) {
+                in_log_block = true;
+                continue;
+            }
+            if l.starts_with("height: ") {
+                in_log_block = false;
+            }
+            if in_log_block {
+                continue;
+            }
+            kept.push(l);
+        }
+        let text = kept.join("\n");
+        let mut recs: Vec<String> = Vec::new();
+        let mut rest = text.as_str();
+        if !rest.starts_with("height: ") {
+            match rest.find("\nheight: ") {
+                Some(i) => rest = &rest[i + 1..],
+                None => return recs,
+            }
+        }
+        loop {
+            match rest[1..].find("\nheight: ") {
+                Some(i) => {
+                    recs.push(rest[..i + 1].to_string());
+                    rest = &rest[i + 2..];
+                }
+                None => {
+                    recs.push(rest.to_string());
+                    break;
+                }
+            }
+        }
+        recs
+    }
     pub fn heights_marked(&self) -> Vec<u64> {
         self.trace.iter().filter(|e| e.op == "height").filter_map(|e| e.class.parse().ok()).collect()
     }
